@@ -11,6 +11,7 @@ import Ladim.Driver.RunOp
 import Ladim.Model.Validate
 import Ladim.Model.Config
 import Ladim.Model.Params
+import Ladim.Model.SimConfig
 /-
 Line-protocol driver: one JSON request per input line, one JSON response per output line.
 It only *runs* the executable model definitions of `Ladim.Model.*`; it contains no logic of
@@ -526,11 +527,26 @@ def opParams (j : Json) : R Json := do
       ("continuous", .bool p.continuous), ("rel_freq", optJ intJ p.relFreq),
       ("extra_forcing", listJ (fun s => Json.str s) p.extraForcing), ("subgrid", optJ (listJ intJ) p.subgrid)])
 
+/-- op "run_cfg": the whole way from the configuration file to the output files (`Ladim.runFile`).  The request
+    carries the data of the run (as for "run"; whatever it says about the time step, the direction of time, the
+    scheme, the output period and layout, the release mode, the subgrid is *ignored*) and the parsed configuration
+    file with the listing of its wildcards; the model derives the parameters from the configuration itself. -/
+def opRunCfg (j : Json) : R Json := do
+  let s0 ← parseSim j
+  let tree := jsonToCfg (← fld j "config")
+  let globs ← getObjPairs (← fld j "glob")
+  let table ← globs.mapM (fun (k, v) => do pure (k, ← getList (fun x => x.getStr?) v))
+  let glob (pat : String) : List String := (table.lookup pat).getD []
+  match Params.ofFile glob tree with
+  | .ok p => if !p.deterministic then throw "random walk switched on: outside the deterministic model" else pure ()
+  | .error _ => pure ()
+  simOut (runFile glob tree s0.data quantize)
+
 def handlers : List (String × (Json → R Json)) :=
   [("tk", opTk), ("period", opPeriod), ("state", opState), ("outrun", opOutRun), ("genname", opGenName),
    ("forcing", opForcing), ("z2s", opZ2s), ("sdepth", opSdepth), ("sstretch", opSstretch),
    ("sample", opSample), ("grid", opGrid), ("sample2d", opSample2D), ("bilininv", opBilinInv),
-   ("tracker", opTracker), ("roms_sample", opRomsSample), ("diffdisp", opDiffDisp), ("analytical", opAnalytical), ("release", opRelease), ("run", opRun), ("validate", opValidate), ("configure", opConfigure), ("params", opParams)]
+   ("tracker", opTracker), ("roms_sample", opRomsSample), ("diffdisp", opDiffDisp), ("analytical", opAnalytical), ("release", opRelease), ("run", opRun), ("validate", opValidate), ("configure", opConfigure), ("params", opParams), ("run_cfg", opRunCfg)]
 
 def handle (line : String) : String :=
   match Json.parse line with
